@@ -99,6 +99,24 @@ def C07(rep, prog, tier):
     part.check_all(rep, ex)
 
 
+def C14(rep, prog, tier):
+    rep.explanation = ("C14: CHECK.three-way (a z3 check() result reaches model() only when it is sat; `unknown` ends in a flagged "
+                       "expiry) on the optimizer loops of both z3 operators, TIMEOUT.flow (no handler between the raise sites and the "
+                       "wrappers swallows TimeoutError), TIMEOUT.row (handler rows are (key, False, True, budget)), TIMEOUT.guarded-raise, "
+                       "PREPROC.once. Decides how an expiry or an `unknown` is routed; when it happens is not decidable statically")
+    ex = Explorer(prog, rep)
+    table = wrappers.dispatch(rep, ex, report=False)
+    for key in (("system-w", True), ("lex_inf", True)):
+        cls = _class_of(table, key)
+        if cls:
+            enum.z3mcs(rep, ex, cls)
+    wrappers.timeout_flow(rep, ex)
+    wrappers.rows(rep, ex, which=("single", "worker"), rules=("TIMEOUT.row",))
+    wrappers.refuse(rep, ex, rules=("TIMEOUT.row", "TIMEOUT.flow", "PREPROC.once"))
+    wrappers.refuse_manager(rep, ex, rules=("TIMEOUT.row",))
+    enum.loop(rep, ex, rules=("TIMEOUT.guarded-raise",))
+
+
 def C15(rep, prog, tier):
     rep.explanation = ("C15: CNF.roles/literals/constants/pool on the Tseitin step; MCS.violated/block/minimal/loop on the rc2 "
                        "enumeration (remove_supersets decided on three abstract sets with ⊆ uninterpreted); decides the shape of the "
@@ -125,4 +143,4 @@ def C06(rep, prog, tier):
     wrappers.shortcut_dominance(rep, ex)
 
 
-CHECKS = {"C01": C01, "C02": C02, "C03": C03, "C04": C04, "C06": C06, "C07": C07, "C15": C15}
+CHECKS = {"C01": C01, "C02": C02, "C03": C03, "C04": C04, "C06": C06, "C07": C07, "C14": C14, "C15": C15}
